@@ -75,6 +75,10 @@ class Ctx:
         self.deep = Engine(fb, inline=inline_all)
         self.flat = Engine(fb, inline=None)
         self.pure = Engine(fb, inline=pure_policy(fb))
+        wp = wrapper_policy(fb)
+        # big-integer view: inline the Integer wrapper, the group constants and the key
+        # wrappers' as_bigint, plus pure structure; stop at every other crate function
+        self.big = Engine(fb, inline=lambda path, depth: path.startswith("bigint::") or path.startswith("<bigint::") or path.startswith("primes::") or path.startswith("<primes::") or path.endswith("::as_bigint") or wp(path, depth))
 
     def has(self, path):
         return path in self.fb.bodies
